@@ -99,10 +99,10 @@ func (w *Health) runFlags(uniq string) {
 			s.Poke()
 		}()
 	}
-	s.Armed["t:op"] = true
+	s.Arm("t:op")
 	if conc {
-		s.Armed["x:health.set"] = true
-		s.Armed["x:health.clear"] = true
+		s.Arm("x:health.set")
+		s.Arm("x:health.clear")
 	}
 	s.Run(func() bool { mu.Lock(); defer mu.Unlock(); return done == nT })
 	// final state: every bit = its owner's last operation; Health() iff no bit set
